@@ -47,7 +47,7 @@ func drawRecs(t *tape.Tape, w *World, sh Shape, o GenOpts) {
 }
 
 func declOptsOf(o GenOpts) DeclOpts {
-	return DeclOpts{NoJS: o.NoJS, OwnDataOnly: o.OwnDataOnly, Collide: o.Family == "collide"}
+	return DeclOpts{NoJS: o.NoJS, OwnDataOnly: o.OwnDataOnly, Collide: o.Family == "collide", Probe: o.Probe}
 }
 
 // addPoisonable makes sure FINAL_OUTPUT casts the int field, so that a non-numeric value (or
